@@ -23,6 +23,10 @@ if TYPE_CHECKING:
 __all__ = ["SHA256Hasher", "SHA512Hasher"]
 
 
+#: characters a sha-crypt salt is made of (the hash64 alphabet)
+_SALT_CHARS = frozenset(B64_CHARS)
+
+
 def _gen_salt(size: int) -> str:
     return "".join(secrets.choice(B64_CHARS) for _ in range(size))
 
@@ -296,8 +300,8 @@ class _ShaHasher(PasswordHasher):
 
     def hash(self, secret: StrOrBytes, *, salt: StrOrBytes | None = None) -> str:
         salt = as_str(salt) if salt is not None else _gen_salt(16)
-        if not 1 <= len(salt) <= 16 or "$" in salt:
-            raise ValueError("salt must be 1 to 16 characters, without '$'")
+        if not 1 <= len(salt) <= 16 or not _SALT_CHARS.issuperset(salt):
+            raise ValueError("salt must be 1 to 16 characters from [./0-9A-Za-z]")
 
         sha = _sha_crypt(
             secret=as_bytes(secret),
